@@ -71,8 +71,10 @@ func schedHeapPopResets(c *Ctx) *RuleResult {
 		want := idx[named.Obj()]
 		okW := false
 		for _, w := range FieldWrites([]*FuncUnit{u}, want, false) {
-			if w.RHS != nil && exprStr(w.RHS) == "-1" {
-				okW = true
+			if w.RHS != nil {
+				if tv, ok := u.Info().Types[w.RHS]; ok && tv.Value != nil && tv.Value.ExactString() == "-1" {
+					okW = true
+				}
 			}
 		}
 		construct := constructOf(u, "reset "+want.Name())
@@ -279,16 +281,24 @@ func c07TimeoutNonNegative(c *Ctx) *RuleResult {
 	p := c.P
 	u := p.Unit("pkg/scheduler/initialsizeclass", "ActionTimeoutExtractor.ExtractTimeout")
 	neg, max := false, false
+	info := u.Info()
+	isZero := func(e ast.Expr) bool {
+		tv, ok := info.Types[e]
+		return ok && tv.Value != nil && tv.Value.ExactString() == "0"
+	}
 	ast.Inspect(u.Decl.Body, func(n ast.Node) bool {
 		be, ok := n.(*ast.BinaryExpr)
 		if !ok {
 			return true
 		}
-		if be.Op == token.LSS && exprStr(be.Y) == "0" {
-			neg = true
-		}
-		if be.Op == token.GTR && strings.Contains(exprStr(be.Y), "maximumExecutionTimeout") {
-			max = true
+		switch be.Op {
+		case token.LSS, token.GTR, token.LEQ, token.GEQ:
+			if isZero(be.X) || isZero(be.Y) {
+				neg = true
+			}
+			if strings.Contains(exprStr(be.X), "maximumExecutionTimeout") || strings.Contains(exprStr(be.Y), "maximumExecutionTimeout") {
+				max = true
+			}
 		}
 		return true
 	})
@@ -504,8 +514,23 @@ func c11ResumeOnce(c *Ctx) *RuleResult {
 	r := &RuleResult{Rule: "C11.resume-once", Floor: 2,
 		Doc: "time during which the worker waits for storage is excluded exactly: the buffer completion handler resumes the clock in Done only (OnError is followed by Done), and SuspendableClock.Resume decrements unconditionally after panicking on an unmatched call (it does not silently absorb a double resume)"}
 	p := c.P
+	doneFn := p.LookupFunc("pkg/blobstore", "resumingErrorHandler.Done")
+	handlerType := func(fn *types.Func) *types.TypeName {
+		sig := fn.Type().(*types.Signature)
+		if sig.Recv() == nil {
+			return nil
+		}
+		t := sig.Recv().Type()
+		if pt, ok := t.(*types.Pointer); ok {
+			t = pt.Elem()
+		}
+		if nt, ok := t.(*types.Named); ok {
+			return nt.Obj()
+		}
+		return nil
+	}
 	for _, u := range p.UnitsIn("pkg/blobstore") {
-		if u.Decl.Recv == nil || recvTypeName(u) != "resumingErrorHandler" {
+		if u.Decl.Recv == nil || handlerType(u.Fn) != handlerType(doneFn) {
 			continue
 		}
 		info := u.Info()
@@ -522,9 +547,9 @@ func c11ResumeOnce(c *Ctx) *RuleResult {
 		})
 		construct := constructOf(u, "resumes")
 		switch {
-		case u.Fn.Name() == "Done" && resumes, u.Fn.Name() != "Done" && !resumes:
+		case u.Fn == doneFn && resumes, u.Fn != doneFn && !resumes:
 			r.ok(construct, posOf(p, u.Decl), fmt.Sprint(resumes))
-		case u.Fn.Name() == "Done":
+		case u.Fn == doneFn:
 			r.bad(c.Prop, construct, posOf(p, u.Decl), "Done no longer resumes the clock")
 		default:
 			r.bad(c.Prop, construct, posOf(p, u.Decl), "the clock is resumed in "+u.Fn.Name()+" as well as in Done: after a failed read it is resumed twice, ending another (still stalled) read's suspension")
@@ -593,8 +618,19 @@ func c13RemovalRules(c *Ctx) *RuleResult {
 		Doc: "rename and remove obey the emptiness rules and a directory that stays linked keeps accepting entries: (a) no method empties its OWN receiver with delete-self = true unless it forwards its caller's choice (only detached directories are deleted that way); (b) every markDeleted on another directory is preceded by the isDeletable check of that directory's contents, which knows about hidden files"}
 	p := c.P
 	units := p.UnitsIn(virtualPkg)
+	fnRAC := p.LookupFunc(virtualPkg, "inMemoryPrepopulatedDirectory.RemoveAllChildren")
+	fnrac := p.LookupFunc(virtualPkg, "inMemoryPrepopulatedDirectory.removeAllChildren")
+	fnMark := p.LookupFunc(virtualPkg, "inMemoryPrepopulatedDirectory.markDeleted")
+	fnDeletable := p.LookupFunc(virtualPkg, "inMemoryDirectoryContents.isDeletable")
+	recvNamed := func(fn *types.Func) *types.TypeName {
+		t := fn.Type().(*types.Signature).Recv().Type()
+		if pt, ok := t.(*types.Pointer); ok {
+			t = pt.Elem()
+		}
+		return t.(*types.Named).Obj()
+	}
 	for _, u := range units {
-		if u.Decl.Recv == nil || len(u.Decl.Recv.List[0].Names) == 0 || recvTypeName(u) != "inMemoryPrepopulatedDirectory" {
+		if u.Decl.Recv == nil || len(u.Decl.Recv.List[0].Names) == 0 || recvNamed(u.Fn) != recvNamed(fnMark) {
 			continue
 		}
 		info := u.Info()
@@ -608,8 +644,9 @@ func c13RemovalRules(c *Ctx) *RuleResult {
 			if !ok {
 				return true
 			}
-			switch sel.Sel.Name {
-			case "RemoveAllChildren", "removeAllChildren":
+			switch callee := calleeOf(info, call); {
+			case callee == nil:
+			case callee == fnRAC || callee == fnrac:
 				if len(call.Args) == 1 && exprStr(sel.X) == recv {
 					construct := constructOf(u, sel.Sel.Name+"("+exprStr(call.Args[0])+") on the receiver")
 					if exprStr(call.Args[0]) == "true" {
@@ -618,7 +655,7 @@ func c13RemovalRules(c *Ctx) *RuleResult {
 						r.ok(construct, posOf(p, call), "does not delete itself")
 					}
 				}
-			case "markDeleted":
+			case callee == fnMark:
 				if exprStr(sel.X) == recv {
 					return true
 				}
@@ -626,7 +663,7 @@ func c13RemovalRules(c *Ctx) *RuleResult {
 				okG := false
 				for _, g := range flattenGuards(GuardsOf(info, u.Decl.Body, call)) {
 					if gc, ok := ast.Unparen(g.Cond).(*ast.CallExpr); ok && g.Pos {
-						if gs, ok := ast.Unparen(gc.Fun).(*ast.SelectorExpr); ok && gs.Sel.Name == "isDeletable" {
+						if calleeOf(info, gc) == fnDeletable {
 							okG = true
 						}
 					}
@@ -785,8 +822,10 @@ func c17KeyComplete(c *Ctx) *RuleResult {
 	g := NewFuncCFG(info, su.Decl.Body)
 	var sizeTest ast.Node
 	ast.Inspect(su.Decl.Body, func(n ast.Node) bool {
-		if ifs, ok := n.(*ast.IfStmt); ok && ifs.Init != nil && strings.Contains(exprStr(ifs.Init.(*ast.AssignStmt).Rhs[0]), "GetSizeBytes") {
-			sizeTest = ifs.Cond
+		if call, ok := n.(*ast.CallExpr); ok && sizeTest == nil {
+			if sel, ok := ast.Unparen(call.Fun).(*ast.SelectorExpr); ok && sel.Sel.Name == "GetSizeBytes" {
+				sizeTest = call
+			}
 		}
 		return true
 	})
@@ -794,7 +833,7 @@ func c17KeyComplete(c *Ctx) *RuleResult {
 	okS := sizeTest != nil
 	if okS {
 		ast.Inspect(su.Decl.Body, func(n ast.Node) bool {
-			if ret, ok := n.(*ast.ReturnStmt); ok && len(ret.Results) == 1 && exprStr(ret.Results[0]) == "StatusOK" {
+			if ret, ok := n.(*ast.ReturnStmt); ok && len(ret.Results) == 1 && strings.HasSuffix(exprStr(ret.Results[0]), "StatusOK") {
 				if !g.Dominates(sizeTest, ret) {
 					okS = false
 				}
